@@ -53,7 +53,7 @@ FFSP_WITNESS = (2, 1, 2, [[1, 3], [1, 3]])           # FFSPWait.fw_i
 
 
 # ------------------------------------------------------------------------------------------------ exhaustive expansion (batched)
-def expand(torch, env, td, reward_fn, cap=20000, max_depth=60):
+def expand(torch, env, td, reward_fn, cap=20000, max_depth=60, env_name="env"):
     """all complete mask-confined sequences from the reset TensorDict `td` (batch of one).
     Returns dict(seqs=[(acts, masks_before_each_action, reward)], states, dead=[prefix], crash, cap_hit)."""
     out = {"seqs": [], "states": 0, "dead": [], "crash": None, "cap_hit": False}
@@ -81,7 +81,10 @@ def expand(torch, env, td, reward_fn, cap=20000, max_depth=60):
         td2 = td[torch.tensor(idx, dtype=torch.int64)].clone()
         td2.set("action", torch.tensor(acts, dtype=torch.int64))
         try:
-            td2 = env.step(td2)["next"]
+            td2 = C.guard.call(env_name, "step", env.step, td2)["next"]
+        except C.guard.EnvTimeout as e:      # C02's "episodes terminate": the call did not return (vt/sched_guard.py)
+            out["crash"] = {"where": "timeout", "call": e.what, "depth": depth + 1, "error": str(e), "prefixes": nseq[:8]}
+            break
         except Exception as e:  # noqa: BLE001
             out["crash"] = {"where": "step", "depth": depth + 1, "error": "%s: %s" % (type(e).__name__, str(e)[:300]), "prefixes": nseq[:3]}
             break
@@ -90,7 +93,10 @@ def expand(torch, env, td, reward_fn, cap=20000, max_depth=60):
         fin = [r for r, d in enumerate(done) if d]
         if fin:
             try:
-                rew = reward_fn(td2[torch.tensor(fin, dtype=torch.int64)], [nseq[r] for r in fin])
+                rew = C.guard.call(env_name, "get_reward", reward_fn, td2[torch.tensor(fin, dtype=torch.int64)], [nseq[r] for r in fin])
+            except C.guard.EnvTimeout as e:
+                out["crash"] = {"where": "timeout", "call": e.what, "error": str(e), "prefixes": [nseq[r] for r in fin][:8]}
+                break
             except Exception as e:  # noqa: BLE001
                 out["crash"] = {"where": "get_reward", "error": "%s: %s" % (type(e).__name__, str(e)[:300])}
                 break
@@ -111,8 +117,11 @@ def expand(torch, env, td, reward_fn, cap=20000, max_depth=60):
 # ------------------------------------------------------------------------------------------------ FJSP / JSSP
 def fjsp_expand(torch, kind, mno, inst, cap=20000):
     env = C.fjsp_env(kind, mno, {"num_jobs": len(inst["start"]), "num_machines": len(inst["proc"])})
-    td = env.reset(C.fjsp_td(torch, [inst]))
-    return expand(torch, env, td, lambda sub, seqs: [int(x) for x in env.get_reward(sub, None).reshape(-1).tolist()], cap=cap)
+    try:
+        td = C.guard.call(kind, "reset", env.reset, C.fjsp_td(torch, [inst]))
+    except C.guard.EnvTimeout as e:
+        return {"seqs": [], "states": 0, "dead": [], "cap_hit": False, "crash": {"where": "timeout", "call": e.what, "error": str(e), "prefixes": [[]]}}
+    return expand(torch, env, td, lambda sub, seqs: [int(x) for x in env.get_reward(sub, None).reshape(-1).tolist()], cap=cap, env_name=kind)
 
 
 def fjsp_brute(inst):
@@ -205,6 +214,8 @@ def fjsp_campaign(ctx, torch, rng, scale, big, coll, tag, count=True):
         kinds = ["fjsp"] + (["jssp"] if is_jssp(inst) else [])
         for kind in kinds:
             for mno in (True, False):
+                if C.guard.timed_out(kind):      # an env call did not return (reported): the env is abandoned
+                    continue
                 ex = fjsp_expand(torch, kind, mno, inst)
                 st["expansions"] += 1
                 st["sequences"] += len(ex["seqs"])
@@ -215,6 +226,11 @@ def fjsp_campaign(ctx, torch, rng, scale, big, coll, tag, count=True):
                     ctx.count("c05_%s_states_expanded" % kind, ex["states"])
                     for acts, _, r in ex["seqs"]:
                         ctx.seen({"e": kind, "mno": mno, "i": inst, "a": acts}, nontrivial=len(acts) >= 2)
+                if ex["crash"] and ex["crash"]["where"] == "timeout":
+                    coll.fail(C.guard.signature(kind, ex["crash"]["call"]), fjsp_replay_obj(kind, mno, inst, (
+                        "env.%s did not return during the exhaustive expansion; `prefixes` = action sequences of the batch that was "
+                        "being stepped" % ex["crash"]["call"]), {"crash": ex["crash"]}))
+                    continue
                 if ex["crash"]:
                     coll.fail("%s: crash-on-offered-action" % env_sig, fjsp_replay_obj(kind, mno, inst, "the real env raised on an action its mask offered", {"crash": ex["crash"]}))
                     continue
@@ -286,8 +302,12 @@ def opt_of(v):
 def smtwtp_expand(torch, env, row):
     from tensordict import TensorDict
     f = lambda k: torch.tensor([[x / G.GRID for x in row[k]]], dtype=torch.float32)
-    td = env.reset(TensorDict({"job_due_time": f(0), "job_weight": f(1), "job_process_time": f(2)}, batch_size=[1]))
-    return expand(torch, env, td, lambda sub, seqs: env.get_reward(sub, torch.tensor(seqs, dtype=torch.int64)).reshape(-1).tolist())
+    try:
+        td = C.guard.call("smtwtp", "reset", env.reset, TensorDict({"job_due_time": f(0), "job_weight": f(1), "job_process_time": f(2)}, batch_size=[1]))
+    except C.guard.EnvTimeout as e:
+        return {"seqs": [], "states": 0, "dead": [], "cap_hit": False, "crash": {"where": "timeout", "call": e.what, "error": str(e), "prefixes": [[]]}}
+    return expand(torch, env, td, lambda sub, seqs: env.get_reward(sub, torch.tensor(seqs, dtype=torch.int64)).reshape(-1).tolist(),
+                  env_name="smtwtp")
 
 
 def smtwtp_obj(row, perm):
@@ -322,6 +342,9 @@ def smtwtp_campaign(ctx, torch, rng, sizes, coll, tag, count=True):
             ctx.count("c05_smtwtp_complete_sequences", len(ex["seqs"]))
             for acts, _, r in ex["seqs"]:
                 ctx.seen({"e": "smtwtp", "i": row, "a": acts}, nontrivial=len(acts) >= 2)
+        if ex["crash"] and ex["crash"]["where"] == "timeout":
+            coll.fail(C.guard.signature("smtwtp", ex["crash"]["call"]), smtwtp_replay_obj(row, "env.%s did not return" % ex["crash"]["call"], {"crash": ex["crash"]}))
+            break
         if ex["crash"]:
             coll.fail("smtwtp: crash-on-offered-action", smtwtp_replay_obj(row, "the real env raised on an offered action", {"crash": ex["crash"]}))
             continue
@@ -442,6 +465,12 @@ def ffsp_campaign(ctx, torch, rng, scale, big, coll, tag, count=True):
             ctx.count("c05_ffsp_complete_sequences", len(ok))
             for l in ok:
                 ctx.seen({"e": "ffsp", "i": [key, rt], "a": [a for a, _ in l["steps"]]}, nontrivial=len(l["steps"]) >= 2)
+        tmo = [l for l in crashed if l.get("timeout")]
+        if tmo:
+            coll.fail(C.guard.signature("ffsp", tmo[0]["timeout"]), ffsp_replay_obj(J, S_, M, rt, tmo[0]["crashed"], {
+                "hangs_in": "env.%s" % tmo[0]["timeout"], "batch_run_times": tmo[0].get("batch_rt"),
+                "batch_actions_per_step": tmo[0].get("batch_actions")}))
+            break
         if crashed:
             coll.fail("ffsp: dead-end-before-done", ffsp_replay_obj(J, S_, M, rt, crashed[0]["crashed"], {"prefix": [a for a, _ in crashed[0]["steps"]]}))
             continue
@@ -527,7 +556,7 @@ def run_unit(ctx, proofs_ok):
                 "ffsp": ffsp_campaign(ctx, torch, rng, C.budget(ctx, 7, 80), big, coll, "")}
         dis = sum(u["disagreements"] for u in unit.values())
         new = [s for s in coll.best if s not in (SIG_ND % "jssp", SIG_ND % "fjsp", SIG_FFSP_WAIT)]
-        if (dis or not proofs_ok or any("C05_sched" in b for b in ctx.broken)) and not new:
+        if (dis or not proofs_ok or any("C05_sched" in b for b in ctx.broken)) and not new and not C.guard.timed_out():
             unit["search"] = {"fjsp_jssp": fjsp_campaign(ctx, torch, rng, 30, True, coll, "_search", count=False),
                               "smtwtp": smtwtp_campaign(ctx, torch, rng, [3, 4, 4, 5, 5], coll, "_search", count=False),
                               "ffsp": ffsp_campaign(ctx, torch, rng, 24, False, coll, "_search", count=False)}
@@ -536,6 +565,7 @@ def run_unit(ctx, proofs_ok):
         unit["signatures_seen"] = sorted(coll.best)
         unit["observables"] = ("action_mask at every state of the exhaustive expansion, done, env.get_reward / td['reward'] of every complete "
                                "sequence; compared with the optimum of an independent enumeration of schedules")
+        unit["env_call_guard"] = C.guard.evidence()
         unit["wall_s_unit"] = round(time.time() - t0, 1)
         ctx.units["sched"] = unit
 
@@ -558,6 +588,8 @@ def replay(obj):
             print("%s mask_no_ops=%s now: %d complete mask-confined sequences, best makespan %s%s%s" % (
                 obj["env"], mno, len(ex["seqs"]), best, " (cap hit)" if ex["cap_hit"] else "", " crash %s" % ex["crash"] if ex["crash"] else ""))
         print("optimal makespan (independent enumeration): %s   schedule (op, machine, start, end): %s" % (opt, ent))
+    elif k == "c05_ffsp" and obj.get("hangs_in"):
+        return G.replay(dict(obj, unit="ffsp"))
     elif k == "c05_ffsp":
         gp = obj["generator_params"]
         J, S_, M = gp["num_job"], gp["num_stage"], gp["num_machine"]
